@@ -1,0 +1,21 @@
+//go:build verif
+// +build verif
+
+package service
+
+// Verification hooks (build tag "verif"): yield points before each lock acquisition of the replay
+// cache let a cooperative scheduler enumerate interleavings deterministically.
+
+// VerifYield, when set, is called with the name of the yield point reached.
+var VerifYield func(point string)
+
+func verifYield(point string) {
+	if f := VerifYield; f != nil {
+		f(point)
+	}
+}
+
+// VerifNewCache returns a fresh, private replay cache (no background cleaner).
+func VerifNewCache() *Cache {
+	return &Cache{entries: make(map[string]clientEntries)}
+}
